@@ -34,6 +34,7 @@ def gen_enum(rng, name):
     mode = rng.random()
     stmts = []
     cur = 0
+    used = set()
     defaultable = rng.random() < 0.5
     marks = []
     if defaultable:
@@ -54,8 +55,11 @@ def gen_enum(rng, name):
                 choices += [lo, lo - 1, hi + 1, -1, -2, hi + 2, (1 << (BASES[base][1] - 1)), -(1 << (BASES[base][1] - 1)) - 1]
             v = rng.choice(choices)
             v = max(IMIN, min(IMAX, v))
+            if v in used and rng.random() < 0.9:
+                v = max(IMIN, min(IMAX, cur))
             expr = e_int(v)
             cur = v
+        used.add(cur)
         at = [a_ident('default')] * marks.count(i)
         stmts.append(enum_stmt('V%d' % i, expr, at))
         cur += 1
